@@ -6,6 +6,7 @@ mod alloclog;
 mod chain;
 mod common;
 mod framing;
+mod limits;
 mod outframe;
 
 pub use common::Tier;
@@ -35,6 +36,9 @@ fn main() {
         });
         std::process::exit(replay(&v, path));
     }
+    if args[0] == "limits-prod" {
+        std::process::exit(limits::production_child());
+    }
     let mut tier = Tier::Quick;
     let mut i = 1;
     while i < args.len() {
@@ -54,6 +58,7 @@ fn main() {
         "framing" => framing::run_c01(tier),
         "cancel" => framing::run_c07(tier),
         "outframe" => outframe::run(tier),
+        "limits" => limits::run(tier),
         "chain" => chain::run_c06(tier),
         "borrow" => chain::run_c11(tier),
         _ => usage(),
@@ -67,6 +72,7 @@ fn replay(v: &Value, path: &str) -> i32 {
         "C01" | "C07" => framing::replay(v),
         "C02" => outframe::replay(v),
         "C06" | "C11" => chain::replay(v),
+        "C17" => limits::replay(v),
         _ => {
             eprintln!("MACHINERY: no replay handler for property `{prop}`");
             return 2;
